@@ -41,6 +41,9 @@ func init() {
 type pmap struct {
 	label string
 	m     *u.MapPollard
+	// clean: the `mapnodes` line of the current state has been emitted (big forests emit it once
+	// per state: the calls made between two blocks read the map only)
+	clean bool
 }
 
 func newPartials(rows []uint8) []*pmap {
@@ -72,6 +75,7 @@ func (s *Sim) applyBlockP(delIdx []int, nAdds int, pms []*pmap) {
 		adds[i] = u.Leaf{Hash: addHashes[i], Remember: true}
 	}
 	for _, pm := range pms {
+		pm.clean = false
 		padds := make([]u.Leaf, nAdds)
 		for i := range padds {
 			padds[i] = u.Leaf{Hash: addHashes[i], Remember: s.g.Intn(2) == 0}
@@ -246,7 +250,10 @@ func (s *Sim) callMissing(tag string, held u.Proof, heldH []u.Hash, desT []uint6
 }
 
 func (s *Sim) callMapMissing(tag string, pm *pmap, targets []uint64, leafH []u.Hash) {
-	pm.emitNodes()
+	if !pm.clean || pm.m.NumLeaves <= 300 {
+		pm.emitNodes()
+		pm.clean = true
+	}
 	var missing []uint64
 	r := guard(watchdog, func() { missing = pm.m.GetMissingPositions(copyU64(targets)) })
 	if r != "ok" {
@@ -307,7 +314,7 @@ func (s *Sim) slotOf(h u.Hash) int {
 // pairOfSets draws two sets of live leaves according to a mode.
 func (s *Sim) pairOfSets(mode int) ([]u.Hash, []u.Hash) {
 	g := s.g
-	live := s.liveHashes()
+	live := s.pickPool()
 	if len(live) == 0 {
 		return nil, nil
 	}
@@ -490,7 +497,7 @@ func (s *Sim) proofOpsOnState(nEach int, pms []*pmap) {
 
 		// GetProofSubset
 		if len(live) > 0 {
-			uset := pickSubset(g, live, 1+g.Intn(min(len(live), 10)))
+			uset := pickSubset(g, s.pickPool(), 1+g.Intn(min(len(live), 10)))
 			big := s.prove(uset)
 			pp, ph := permuteParallel(g, big, uset)
 			w := g.Perm(len(pp.Targets))[:g.Intn(len(pp.Targets)+1)]
@@ -533,7 +540,7 @@ func (s *Sim) proofOpsOnState(nEach int, pms []*pmap) {
 			if len(live) == 0 {
 				continue
 			}
-			req := pickSubset(g, live, 1+g.Intn(min(len(live), 6)))
+			req := pickSubset(g, s.pickPool(), 1+g.Intn(min(len(live), 6)))
 			pr := s.prove(req)
 			s.callMapMissing("honest", pm, pr.Targets, req)
 		}
@@ -617,6 +624,34 @@ func famProofOps(g *Gen, tier string, shard, nshards int) {
 	for st := 0; st < nStates; st++ {
 		s := newSim(g, nil)
 		pms := newPartials([][]uint8{{63}, {0}, {50, 0}, {63, 5}}[g.Intn(4)])
+		// one state in five is a forest of many trees (9 or more roots, rows >= 9): proofs of
+		// leaves in the small trees at the right edge (half of the draws) and anywhere are
+		// combined, restricted and completed; a leaf that has climbed many rows is among them
+		if st%5 == 4 {
+			k := shard*nStates/5 + st/5
+			n := manyTreeCount(k)
+			if k%4 == 3 {
+				n = hugeTreeCount(k / 4) // 12..13 roots
+			}
+			s.edgeBias = true
+			for len(s.slots) < n {
+				s.applyBlockP(nil, min(n-len(s.slots), 2048), pms)
+			}
+			nb := 1 + g.Intn(3)
+			for b := 0; b < nb; b++ {
+				style := manyTreeStyle(g)
+				if b == 0 && k%3 == 0 {
+					style = 2
+				}
+				s.applyBlockP(manyTreeDeletions(g, s.alive, style), manyTreeAdds(g), pms)
+				if g.Intn(3) == 0 {
+					s.proofOpsOnState(2, pms)
+				}
+			}
+			s.obsRoots()
+			s.proofOpsOnState(perState, pms)
+			continue
+		}
 		nl := 1 + g.Intn(maxLeaves)
 		if g.Intn(3) == 0 {
 			nl = 1 + g.Intn(12)
